@@ -165,10 +165,10 @@ def meta_for(prop):
                                                               'gv/extract.py extraction rules (R-*)', 'contracts/macros_stub.rs (syn stand-ins)']}
         if prop == 'C15':
             m['assumptions'].append('Kani harness select_conversions_all_ids (one declared world) is a complete check of the generated Select* tables for THAT declaration only.')
-    if prop in ('C06', 'C07', 'C09'):
+    if prop in TEMPLATE_PROPS:
         m['assumptions'] = list(A_COMMON) + [
             A_WORLD[0], A_WORLD[1],
-            'R-tmpl: the ecs_iter!/ecs_iter_destroy! templates are instantiated for ONE schema (two archetypes over Storage2, parameters Entity<_>, EntityDirect<_>, &mut CompX); the user closure is an unspecified stand-in; universality over programs is not claimed.',
+            'R-tmpl: the ecs_find! / ecs_find_borrow! / ecs_iter! / ecs_iter_borrow! / ecs_iter_destroy! templates are instantiated for ONE schema (two archetypes over Storage2) and ONE parameter list (Entity<_>, EntityDirect<_>, &mut CompX; the *_borrow! forms with &CompX, because RefMut accessors are outside the abstraction); the user closure is an unspecified stand-in whose `requires` are the obligations on its arguments; universality over programs is not claimed.',
         ]
     if prop in WORLD_PROPS or prop == 'C19':
         for a in A_WORLD:
